@@ -4,6 +4,7 @@ import ComposeVerif.Lemmas.Path
 import ComposeVerif.Lemmas.Merge
 import ComposeVerif.Lemmas.Unicity
 import ComposeVerif.Lemmas.Reset
+import ComposeVerif.Lemmas.Fuel
 import ComposeVerif.Neg.C04
 /-!
 # C04 — multiple files and documents merge by the Compose override rules
@@ -40,11 +41,12 @@ theorem indexerAt_order_independent (t : List (List String × String)) (h : t.Pe
   unfold indexerAt indexerAtIn
   rw [TPath.firstMatch_perm unique_exclusive h]
 
-/-- the Go tables give every attribute the rule the property states — except `volumes.*.labels`
-(see `Neg/C04.lean`: `rule_table_matches_spec` at full strength is false on the unchanged tree) -/
-theorem rule_table_matches_spec_partial : ∀ r ∈ expectedPartial, actual r.1 = r.2 := by decide
+/-- **the Go tables give every attribute the rule the property states** (54 attribute paths; dropping a row of
+`mergeSpecials` or an indexer of `unique` breaks this).  Before the round-2 repair of `override.unique` this was
+false for `volumes.*.labels` (`Neg/C04.lean`). -/
+theorem rule_table_matches_spec : ∀ r ∈ expected, actual r.1 = r.2 := by decide
 
-example : expectedPartial.length = 53 := by decide
+example : expected.length = 54 := by decide
 
 /-- command / entrypoint / healthcheck.test take the `override` rule for *every* service name -/
 theorem wholesale_paths (s : String) :
@@ -212,6 +214,320 @@ theorem toSeq_append (n : Nat) (e o : Val) (p : TPath) (hp : ruleAt p = some .to
 example : mergeYaml 1 (.map [("B", .int 2), ("A", .null)]) (.seq [.str "B=3"]) ["services", "s", "environment"]
     = .ok (.seq [.str "A", .str "B=2", .str "B=3"]) := by rfl
 
+/-! ## 3b. The structured mergers: depends_on, networks, build, logging, extra_hosts, ipam pools -/
+
+theorem listIntoMap_names (dflt : Val) : ∀ (names : List String) (acc : KVs),
+    listIntoMap dflt (names.map Val.str) acc = .ok (names.foldl (fun m s => Val.insert s dflt m) acc) := by
+  intro names
+  induction names with
+  | nil => intro acc; rfl
+  | cons s r ih => intro acc; simp only [List.map_cons, listIntoMap, List.foldl_cons, ih]
+
+theorem lookup_foldl_insert (dflt : Val) (k : String) : ∀ (names : List String) (acc : KVs),
+    lookup k (names.foldl (fun m s => Val.insert s dflt m) acc) = if k ∈ names then some dflt else lookup k acc := by
+  intro names
+  induction names with
+  | nil => intro acc; simp
+  | cons s r ih =>
+    intro acc
+    simp only [List.foldl_cons, ih, List.mem_cons]
+    by_cases hr : k ∈ r
+    · simp [hr]
+    · by_cases hs : k = s
+      · subst hs; simp [hr, lookup_insert_self]
+      · simp [hr, hs, lookup_insert_ne hs]
+
+/-- **the list spelling of depends_on / networks is the mapping spelling with the default value**: `[a, b]` converts to
+the mapping that holds the default (`{condition: service_started, required: true}`, resp. null) at exactly `a` and `b` -/
+theorem list_spelling_is_default_mapping (dflt : Val) (names : List String) :
+    ∃ m, intoMap dflt (.seq (names.map Val.str)) = .ok m ∧ ∀ k, lookup k m = if k ∈ names then some dflt else none := by
+  refine ⟨names.foldl (fun m s => Val.insert s dflt m) [], ?_, ?_⟩
+  · simp only [intoMap, listIntoMap_names]
+  · intro k; rw [lookup_foldl_insert]; simp [lookup]
+
+/-- depends_on / networks / build: both sides are converted to mappings, then merged like mappings -/
+theorem converted_merge (n : Nat) (e o : Val) (p : TPath) (r : Rule) (conv : Val → Out KVs) (a b : KVs)
+    (hp : ruleAt p = some r)
+    (hr : (r = .dependsOn ∧ conv = intoMap dependsOnDefault) ∨ (r = .networks ∧ conv = intoMap .null) ∨ (r = .build ∧ conv = toBuild))
+    (ha : conv e = .ok a) (hb : conv o = .ok b) :
+    mergeYaml (n + 1) e o p = (mergeKVs n a b p).bind fun m => .ok (.map m) := by
+  rcases hr with ⟨rfl, rfl⟩ | ⟨rfl, rfl⟩ | ⟨rfl, rfl⟩ <;>
+    simp only [mergeYaml, mergeStep, hp, specialStep, convMerge, ha, hb, Out.bind, mergeKVs]
+
+/-- … hence **depends_on merges per dependency, per field, whichever spelling either side uses** (pointwise law on the
+converted mappings; a dependency only the base has is preserved, one only the override has is added) -/
+theorem dependsOn_pointwise (n : Nat) (e o : Val) (p : TPath) (a b m : KVs) (hp : ruleAt p = some .dependsOn)
+    (ha : intoMap dependsOnDefault e = .ok a) (hb : intoMap dependsOnDefault o = .ok b) (hnd : (keys b).Nodup)
+    (h : mergeYaml (n + 1) e o p = .ok (.map m)) (k : String) :
+    PointwiseAt (mergeYaml n) p k (lookup k a) (lookup k b) (lookup k m) := by
+  rw [converted_merge n e o p .dependsOn _ a b hp (.inl ⟨rfl, rfl⟩) ha hb] at h
+  cases hm : mergeKVs n a b p with
+  | ok m' =>
+    simp only [hm, Out.bind, Out.ok.injEq, Val.map.injEq] at h
+    subst h; exact merge_map_pointwise n a b m' p hnd hm k
+  | err e' => simp [hm, Out.bind] at h
+  | panic s => simp [hm, Out.bind] at h
+
+theorem serviceNetworks_pointwise (n : Nat) (e o : Val) (p : TPath) (a b m : KVs) (hp : ruleAt p = some .networks)
+    (ha : intoMap .null e = .ok a) (hb : intoMap .null o = .ok b) (hnd : (keys b).Nodup)
+    (h : mergeYaml (n + 1) e o p = .ok (.map m)) (k : String) :
+    PointwiseAt (mergeYaml n) p k (lookup k a) (lookup k b) (lookup k m) := by
+  rw [converted_merge n e o p .networks _ a b hp (.inr (.inl ⟨rfl, rfl⟩)) ha hb] at h
+  cases hm : mergeKVs n a b p with
+  | ok m' =>
+    simp only [hm, Out.bind, Out.ok.injEq, Val.map.injEq] at h
+    subst h; exact merge_map_pointwise n a b m' p hnd hm k
+  | err e' => simp [hm, Out.bind] at h
+  | panic s => simp [hm, Out.bind] at h
+
+/-- **build: a string is the context of a mapping**, then the two mappings merge key by key -/
+theorem build_pointwise (n : Nat) (e o : Val) (p : TPath) (a b m : KVs) (hp : ruleAt p = some .build)
+    (ha : toBuild e = .ok a) (hb : toBuild o = .ok b) (hnd : (keys b).Nodup)
+    (h : mergeYaml (n + 1) e o p = .ok (.map m)) (k : String) :
+    PointwiseAt (mergeYaml n) p k (lookup k a) (lookup k b) (lookup k m) := by
+  rw [converted_merge n e o p .build _ a b hp (.inr (.inr ⟨rfl, rfl⟩)) ha hb] at h
+  cases hm : mergeKVs n a b p with
+  | ok m' =>
+    simp only [hm, Out.bind, Out.ok.injEq, Val.map.injEq] at h
+    subst h; exact merge_map_pointwise n a b m' p hnd hm k
+  | err e' => simp [hm, Out.bind] at h
+  | panic s => simp [hm, Out.bind] at h
+
+theorem build_string_is_context (s : String) : toBuild (.str s) = .ok [("context", .str s)] := rfl
+
+example : mergeYaml 2 (.str "./dir") (.map [("dockerfile", .str "D")]) ["services", "s", "build"]
+    = .ok (.map [("context", .str "./dir"), ("dockerfile", .str "D")]) := by rfl
+
+example : mergeYaml 3 (.seq [.str "db"]) (.map [("db", .map [("condition", .str "service_healthy")]), ("mq", .map [("condition", .str "service_started")])])
+      ["services", "s", "depends_on"]
+    = .ok (.map [("db", .map [("condition", .str "service_healthy"), ("required", .bool true)]), ("mq", .map [("condition", .str "service_started")])]) := by rfl
+
+/-- logging: with the same driver on both sides (or a side that names none) the two sections merge key by key … -/
+theorem logging_same_driver_merges (n : Nat) (config other : KVs) (p : TPath) (hp : ruleAt p = some .logging)
+    (h : sameScalar ((lookup "driver" other).getD .null) ((lookup "driver" config).getD .null) = true ∨
+         lookup "driver" other = none ∨ lookup "driver" config = none) :
+    mergeYaml (n + 1) (.map config) (.map other) p = (mergeKVs n config other p).bind fun m => .ok (.map m) := by
+  simp only [mergeYaml, mergeStep, hp, specialStep, loggingStep, mergeKVs]
+  rcases h with h | h | h <;> simp [h]
+
+/-- … and an override that names another driver replaces the section -/
+theorem logging_other_driver_replaces (n : Nat) (config other : KVs) (p : TPath) (d c : Val) (hp : ruleAt p = some .logging)
+    (hd : lookup "driver" other = some d) (hc : lookup "driver" config = some c) (hne : sameScalar d c = false) :
+    mergeYaml (n + 1) (.map config) (.map other) p = .ok (.map other) := by
+  simp [mergeYaml, mergeStep, hp, specialStep, loggingStep, hd, hc, hne]
+
+/-- a malformed logging section is an error, never a panic (before the round-2 repair: `panic@override.mergeLogging`) -/
+theorem logging_wrong_kind_is_error (n : Nat) (e o : Val) (p : TPath) (hp : ruleAt p = some .logging)
+    (he : e ≠ .null) (ho : o ≠ .null) (h : (∀ a, e ≠ .map a) ∨ (∀ b, o ≠ .map b)) :
+    mergeYaml (n + 1) e o p = .err "cannotOverride" := by
+  simp only [mergeYaml, mergeStep, hp, specialStep, loggingStep]
+  rcases h with h | h
+  · cases e <;> first | exact absurd rfl he | exact absurd rfl (h _) | skip
+    all_goals (cases o <;> first | exact absurd rfl ho | rfl)
+  · cases o <;> first | exact absurd rfl ho | exact absurd rfl (h _) | skip
+    all_goals (cases e <;> first | exact absurd rfl he | rfl)
+
+theorem keepNew_mem (right : List Val) (v : Val) : ∀ l : List Val,
+    v ∈ keepNew right l ↔ v ∈ l ∧ right.any (fun x => sameScalar x v) = false := by
+  intro l
+  induction l with
+  | nil => simp [keepNew]
+  | cons w r ih =>
+    simp only [keepNew]
+    by_cases hw : right.any (fun x => sameScalar x w) = true
+    · simp only [hw, if_true, ih, List.mem_cons]
+      constructor
+      · rintro ⟨h1, h2⟩; exact ⟨.inr h1, h2⟩
+      · rintro ⟨h1 | h1, h2⟩
+        · subst h1; rw [hw] at h2; cases h2
+        · exact ⟨h1, h2⟩
+    · simp only [hw, Bool.false_eq_true, if_false, List.mem_cons, ih]
+      constructor
+      · rintro (h1 | ⟨h1, h2⟩)
+        · subst h1; exact ⟨.inl rfl, by simpa using hw⟩
+        · exact ⟨.inr h1, h2⟩
+      · rintro ⟨h1 | h1, h2⟩
+        · exact .inl h1
+        · exact .inr ⟨h1, h2⟩
+
+/-- **extra_hosts: the override's entries that the base does not already have are appended** — the base entries
+stay in front unchanged, nothing is invented, nothing the base has is repeated -/
+theorem extraHosts_appends_new (n : Nat) (e o : Val) (p : TPath) (hp : ruleAt p = some .extraHosts) :
+    mergeYaml (n + 1) e o p = .ok (.seq (seqOf e ++ keepNew (seqOf e) (seqOf o))) ∧
+    ∀ v, v ∈ keepNew (seqOf e) (seqOf o) ↔ v ∈ seqOf o ∧ (seqOf e).any (fun x => sameScalar x v) = false := by
+  refine ⟨by simp only [mergeYaml, mergeStep, hp, specialStep], fun v => keepNew_mem _ v _⟩
+
+example : mergeYaml 1 (.map [("h1", .str "10.0.0.1")]) (.seq [.str "h1=10.0.0.1", .str "h2=10.0.0.2"]) ["services", "s", "extra_hosts"]
+    = .ok (.seq [.str "h1=10.0.0.1", .str "h2=10.0.0.2"]) := by rfl
+
+theorem length_listSet {α : Type} : ∀ (l : List α) (i : Nat) (x : α), (listSet l i x).length = l.length
+  | [], _, _ => rfl
+  | _ :: _, 0, _ => rfl
+  | _ :: r, i + 1, x => by simp [listSet, length_listSet r i x]
+
+theorem getElem?_listSet_ne {α : Type} : ∀ (l : List α) (i j : Nat) (x : α), i ≠ j → (listSet l i x)[j]? = l[j]?
+  | [], _, _, _, _ => rfl
+  | _ :: _, 0, 0, _, h => absurd rfl h
+  | _ :: _, 0, j + 1, _, _ => by simp [listSet]
+  | _ :: _, i + 1, 0, _, _ => by simp [listSet]
+  | _ :: r, i + 1, j + 1, x, h => by
+    simp only [listSet, List.getElem?_cons_succ]
+    exact getElem?_listSet_ne r i j x (fun h' => h (by rw [h']))
+
+theorem ipamIndex_spec (s : Val) : ∀ (l : List KVs) (k i : Nat), ipamIndex s l k = some i →
+    ∃ m, l[i - k]? = some m ∧ k ≤ i ∧ sameScalar (subnetOf m) s = true := by
+  intro l
+  induction l with
+  | nil => intro k i h; simp [ipamIndex] at h
+  | cons m r ih =>
+    intro k i h
+    simp only [ipamIndex] at h
+    by_cases hs : sameScalar (subnetOf m) s = true
+    · simp only [hs, if_true, Option.some.injEq] at h
+      subst h; exact ⟨m, by simp, Nat.le_refl _, hs⟩
+    · simp only [hs, Bool.false_eq_true, if_false] at h
+      obtain ⟨m', h1, h2, h3⟩ := ih (k + 1) i h
+      refine ⟨m', ?_, by omega, h3⟩
+      have : i - k = (i - (k + 1)) + 1 := by omega
+      rw [this, List.getElem?_cons_succ]; exact h1
+
+/-- **ipam pools are never dropped**: the merged config has at least the base's pools … -/
+theorem ipam_no_pool_dropped (mk : KVs → KVs → TPath → Out KVs) (p : TPath) : ∀ (lefts cfgs r : List KVs),
+    ipamFold mk cfgs lefts p = .ok r → cfgs.length ≤ r.length := by
+  intro lefts
+  induction lefts with
+  | nil => intro cfgs r h; simp only [ipamFold, Out.ok.injEq] at h; subst h; exact Nat.le_refl _
+  | cons left rest ih =>
+    intro cfgs r h
+    simp only [ipamFold] at h
+    cases hi : ipamIndex (subnetOf left) cfgs 0 with
+    | none =>
+      simp only [hi] at h
+      have := ih _ _ h
+      simp only [List.length_append, List.length_singleton] at this; omega
+    | some i =>
+      simp only [hi] at h
+      cases hm : mk (cfgs[i]?.getD []) left p with
+      | ok m =>
+        simp only [hm, Out.bind] at h
+        have := ih _ _ h
+        rw [length_listSet] at this; exact this
+      | err e => simp [hm, Out.bind] at h
+      | panic s => simp [hm, Out.bind] at h
+
+/-- … and **a pool whose subnet the override does not mention is preserved unchanged, at its position**
+(before the round-2 rewrite of `mergeIPAMConfig`: base `[A]` + override `[B]` = `[B]`, see `Neg/C04.lean`) -/
+theorem ipam_unmentioned_pool_preserved (mk : KVs → KVs → TPath → Out KVs) (p : TPath) (i : Nat) (c : KVs) :
+    ∀ (lefts cfgs r : List KVs), cfgs[i]? = some c →
+      (∀ l ∈ lefts, sameScalar (subnetOf c) (subnetOf l) = false) →
+      ipamFold mk cfgs lefts p = .ok r → r[i]? = some c := by
+  intro lefts
+  induction lefts with
+  | nil => intro cfgs r hc _ h; simp only [ipamFold, Out.ok.injEq] at h; subst h; exact hc
+  | cons left rest ih =>
+    intro cfgs r hc hno h
+    have hrest : ∀ l ∈ rest, sameScalar (subnetOf c) (subnetOf l) = false := fun l hl => hno l (by simp [hl])
+    simp only [ipamFold] at h
+    cases hi : ipamIndex (subnetOf left) cfgs 0 with
+    | none =>
+      simp only [hi] at h
+      refine ih _ _ ?_ hrest h
+      rw [List.getElem?_append_left]
+      · exact hc
+      · exact (List.getElem?_eq_some_iff.mp hc).1
+    | some j =>
+      simp only [hi] at h
+      cases hm : mk (cfgs[j]?.getD []) left p with
+      | ok m =>
+        simp only [hm, Out.bind] at h
+        refine ih _ _ ?_ hrest h
+        have hji : j ≠ i := by
+          intro hji; subst hji
+          obtain ⟨m', h1, _, h3⟩ := ipamIndex_spec _ _ _ _ hi
+          simp only [Nat.sub_zero] at h1
+          rw [hc] at h1; cases h1
+          rw [hno left (by simp)] at h3; cases h3
+        rw [getElem?_listSet_ne _ _ _ _ hji]; exact hc
+      | err e => simp [hm, Out.bind] at h
+      | panic s => simp [hm, Out.bind] at h
+
+/-- a pool with a new subnet is appended -/
+theorem ipam_new_pool_appended (mk : KVs → KVs → TPath → Out KVs) (p : TPath) (cfgs : List KVs) (left : KVs)
+    (h : ipamIndex (subnetOf left) cfgs 0 = none) : ipamFold mk cfgs [left] p = .ok (cfgs ++ [left]) := by
+  simp [ipamFold, h]
+
+/-- a pool with the subnet of an existing pool is merged into that pool, in place -/
+theorem ipam_same_subnet_merged (mk : KVs → KVs → TPath → Out KVs) (p : TPath) (cfgs : List KVs) (left m : KVs) (i : Nat)
+    (h : ipamIndex (subnetOf left) cfgs 0 = some i) (hm : mk (cfgs[i]?.getD []) left p = .ok m) :
+    ipamFold mk cfgs [left] p = .ok (listSet cfgs i m) := by
+  simp [ipamFold, h, hm, Out.bind]
+
+/-! ## 3c. Totality: enough fuel, and no panic site left in `override/merge.go` -/
+
+/-- **fuel sufficiency**: `mergeYaml n e o p` never runs out of fuel once `n ≥ depth o + 2`, for every base, override and
+path (uses the table fact `conv_rules_at_length_three`: the converting mergers sit at patterns of length three) -/
+theorem mergeYaml_fuel_sufficient (n : Nat) (e o : Val) (p : TPath) (h : depth o + 2 ≤ n) (s : String) :
+    mergeYaml n e o p ≠ .panic s :=
+  mergeYaml_never_panics n e o p (by have := cst_le_two p; omega) s
+
+/-- **`override.Merge` never panics** (the model has no panic outcome but the fuel, and the fuel `fuelFor` is enough).
+Before the round-2 repairs this was false: `panic@override.mergeLogging`, `…mergeIPAMConfig`, `…convertIntoMapping`,
+`…mergeMappings`, `…mergeExtraHosts` (C01's findings; pre-fix witness `Neg.PreFix.ipam_panicked`). -/
+theorem merge_never_panics (base over : Val) (s : String) : merge base over ≠ .panic s := by
+  unfold merge
+  cases base <;> cases over <;> first | (simp; done) | skip
+  exact mergeYaml_fuel_sufficient _ _ _ _ (by unfold fuelFor; omega) s
+
+theorem extendService_never_panics (base over : Val) (s : String) : extendService base over ≠ .panic s := by
+  unfold extendService
+  cases base <;> cases over <;> first | (simp; done) | skip
+  exact mergeYaml_fuel_sufficient _ _ _ _ (by unfold fuelFor; omega) s
+
+/-- more fuel never changes a successful result's existence: any fuel above the bound avoids the fuel panic, so the
+choice of `fuelFor` is immaterial -/
+theorem fuelFor_enough (over : Val) : depth over + 2 ≤ fuelFor over := by unfold fuelFor; omega
+
+/-- the unicity indexers never panic either (since the repairs of `mountIndexer` / `envFileIndexer`) -/
+theorem index_never_panics (ix : Indexer) (v : Val) (s : String) : index ix v ≠ .panic s := by
+  cases ix <;> cases v <;> simp only [index] <;> (try split) <;> (try split) <;> simp
+
+theorem indexAll_never_panics (ix : Indexer) : ∀ (xs : List Val) (s : String), indexAll ix xs ≠ .panic s := by
+  intro xs
+  induction xs with
+  | nil => intro s h; simp [indexAll] at h
+  | cons x r ih =>
+    intro s
+    simp only [indexAll]
+    exact bind_ne_panic (index_never_panics ix x) (fun k => bind_ne_panic ih (fun ks s h => by simp at h)) s
+
+mutual
+/-- **`override.EnforceUnicity` never panics**, on any tree -/
+theorem enforce_never_panics : ∀ (v : Val) (p : TPath) (s : String), enforce v p ≠ .panic s
+  | .map kvs, p, s => by
+    simp only [enforce]
+    exact bind_ne_panic (enforceKVs_never_panics kvs p) (fun m s h => by simp at h) s
+  | .seq xs, p, s => by
+    simp only [enforce]
+    cases indexerAt p with
+    | none => simp
+    | some ix => exact bind_ne_panic (indexAll_never_panics ix xs) (fun ks s h => by simp at h) s
+  | .null, _, _ => by simp [enforce]
+  | .bool _, _, _ => by simp [enforce]
+  | .int _, _, _ => by simp [enforce]
+  | .float _, _, _ => by simp [enforce]
+  | .str _, _, _ => by simp [enforce]
+theorem enforceKVs_never_panics : ∀ (kvs : KVs) (p : TPath) (s : String), enforceKVs kvs p ≠ .panic s
+  | [], _, _ => by simp [enforceKVs]
+  | (k, e) :: r, p, s => by
+    simp only [enforceKVs]
+    exact bind_ne_panic (enforce_never_panics e (next p k))
+      (fun u => bind_ne_panic (enforceKVs_never_panics r p) (fun r' s h => by simp at h)) s
+end
+
+theorem enforceTop_never_panics (v : Val) (s : String) : enforceTop v ≠ .panic s := by
+  unfold enforceTop
+  cases v <;> first | (simp; done) | exact enforce_never_panics _ _ s
+
 /-! ## 4. `enforceUnicity`: one entry per key, the later one wins, the first position is kept -/
 
 /-- after unicity no two entries share a key -/
@@ -349,6 +665,48 @@ theorem keyed_list_later_wins (n : Nat) (xa xb : List Val) (p : TPath) (ix : Ind
 example : (mergeYaml 1 (.seq [.str "vol:/data", .str "/cache"]) (.seq [.str "./src:/data:ro"]) ["services", "s", "volumes"]).bind
     (fun m => enforce m ["services", "s", "volumes"]) = .ok (.seq [.str "./src:/data:ro", .str "/cache"]) := by rfl
 
+/-- the `KEY=VALUE` strings a mapping entry `k: v` is converted to all carry the key `k` (for a key without `=`) -/
+theorem entryStrs_key (k : String) (v : Val) (hk : ∀ c ∈ k.toList, c ≠ '=') : ∀ s ∈ entryStrs k v, kvKey s = k := by
+  intro s hs
+  cases v with
+  | null => simp only [entryStrs, List.mem_singleton] at hs; rw [hs]; exact kvKey_bare k hk
+  | seq xs =>
+    simp only [entryStrs, List.mem_map] at hs
+    obtain ⟨x, _, rfl⟩ := hs
+    exact kvKey_entry k _ hk
+  | bool b => simp only [entryStrs, List.mem_singleton] at hs; rw [hs]; exact kvKey_entry k _ hk
+  | int i => simp only [entryStrs, List.mem_singleton] at hs; rw [hs]; exact kvKey_entry k _ hk
+  | float f => simp only [entryStrs, List.mem_singleton] at hs; rw [hs]; exact kvKey_entry k _ hk
+  | str t => simp only [entryStrs, List.mem_singleton] at hs; rw [hs]; exact kvKey_entry k _ hk
+  | map m => simp only [entryStrs, List.mem_singleton] at hs; rw [hs]; exact kvKey_entry k _ hk
+
+/-- every string of the converted mapping carries one of the mapping's keys: **the mapping spelling `K: V` is indexed
+under `K`, exactly like the list spelling `K=V`** -/
+theorem mapStrs_keys : ∀ (m : KVs), (∀ k ∈ keys m, ∀ c ∈ k.toList, c ≠ '=') → ∀ s ∈ mapStrs m, kvKey s ∈ keys m := by
+  intro m
+  induction m with
+  | nil => intro _ s hs; simp [mapStrs] at hs
+  | cons hd tl ih =>
+    obtain ⟨k, v⟩ := hd
+    intro hk s hs
+    simp only [mapStrs, List.mem_append] at hs
+    simp only [keys, List.map_cons, List.mem_cons]
+    rcases hs with hs | hs
+    · exact .inl (entryStrs_key k v (hk k (by simp [keys])) s hs)
+    · exact .inr (ih (fun k' hk' => hk k' (by simp only [keys, List.map_cons, List.mem_cons]; exact .inr hk')) s hs)
+
+/-- a sequence of strings is always indexable by key (so `kv_later_wins` applies to every list / mapping of scalars) -/
+theorem indexAll_keyValue_strs : ∀ l : List String, indexAll .keyValue (l.map Val.str) = .ok (l.map kvKey) := by
+  intro l
+  induction l with
+  | nil => rfl
+  | cons s r ih => simp only [List.map_cons, indexAll, index, Out.bind, ih]
+
+theorem indexAll_keyValue_mapping (m : KVs) :
+    indexAll .keyValue (seqOf (.map m)) = .ok ((sortStrs (mapStrs m)).map kvKey) := by
+  simp only [seqOf, intoSeq, Option.getD_some]
+  exact indexAll_keyValue_strs _
+
 /-! ## 5. Files and `---` documents are folded the same way -/
 
 theorem bind_assoc' {α β γ : Type} (x : Out α) (f : α → Out β) (g : β → Out γ) :
@@ -443,15 +801,92 @@ example :
       [.map .none [("services", .map .none [("web", .map .none [("ports", .scalar .reset .null), ("dns", .seq .override [.scalar .none (.str "9.9.9.9")])])])]]
     = .ok (.map [("services", .map [("web", .map [("image", .str "nginx"), ("dns", .seq [.str "9.9.9.9"])])])]) := by rfl
 
+theorem enforceKVs_keys : ∀ (kvs r : KVs) (p : TPath), enforceKVs kvs p = .ok r → keys r = keys kvs := by
+  intro kvs
+  induction kvs with
+  | nil => intro r p h; simp only [enforceKVs, Out.ok.injEq] at h; subst h; rfl
+  | cons hd tl ih =>
+    obtain ⟨k, e⟩ := hd
+    intro r p h
+    simp only [enforceKVs] at h
+    cases hu : enforce e (next p k) with
+    | ok u =>
+      simp only [hu, Out.bind] at h
+      cases hr : enforceKVs tl p with
+      | ok r' =>
+        simp only [hr, Out.ok.injEq] at h
+        subst h
+        simp only [keys, List.map_cons, List.cons.injEq, true_and]
+        exact ih r' p hr
+      | err e' => simp [hr] at h
+      | panic s => simp [hr] at h
+    | err e' => simp [hu, Out.bind] at h
+    | panic s => simp [hu, Out.bind] at h
+
+theorem root_has_no_rule : ruleAt TPath.root = none := by decide
+
+/-- what one document does to the model at the document root: `Apply`, `mergeMappings`, unicity -/
+theorem docStep_root (a : KVs) (es : List (String × YNode)) (r : Val)
+    (h : docStep .ok (.map a) (.map .none es) = .ok r) :
+    ∃ m r', mergeKVs (depth (.map (decodeKV (resolveMap es TPath.root).1)) + 7)
+                (applyKVs (resolveMap es TPath.root).2 a TPath.root) (decodeKV (resolveMap es TPath.root).1) TPath.root = .ok m ∧
+            enforceKVs m TPath.root = .ok r' ∧ r = .map r' := by
+  simp only [docStep, readDoc, resolve, decode, applyNull, merge, fuelFor] at h
+  rw [show depth (.map (decodeKV (resolveMap es TPath.root).1)) + 8 = (depth (.map (decodeKV (resolveMap es TPath.root).1)) + 7) + 1 from rfl,
+    merge_map_unfold _ _ _ _ root_has_no_rule] at h
+  cases hm : mergeKVs (depth (.map (decodeKV (resolveMap es TPath.root).1)) + 7)
+      (applyKVs (resolveMap es TPath.root).2 a TPath.root) (decodeKV (resolveMap es TPath.root).1) TPath.root with
+  | ok m =>
+    simp only [hm, Out.bind, Unicity.enforceTop, enforce] at h
+    cases hr : enforceKVs m TPath.root with
+    | ok r' =>
+      simp only [hr, Out.ok.injEq] at h
+      exact ⟨m, r', rfl, hr, h.symm⟩
+    | err e => simp [hr] at h
+    | panic s => simp [hr] at h
+  | err e => simp [hm, Out.bind] at h
+  | panic s => simp [hm, Out.bind] at h
+
+/-- **`!reset` at the top level of a document removes the attribute from the loaded model** (whole document step:
+tag resolution, `Apply`, merge, unicity) -/
+theorem docStep_reset_removes (a : KVs) (es : List (String × YNode)) (k : String) (x : YNode) (r : KVs)
+    (ht : x.tag = .reset) (hnd : (es.map Prod.fst).Nodup) (hmem : (k, x) ∈ es)
+    (h : docStep .ok (.map a) (.map .none es) = .ok (.map r)) : lookup k r = none := by
+  obtain ⟨m, r', hm, hr, heq⟩ := docStep_root a es _ h
+  cases heq
+  have := reset_removes _ TPath.root k x ht es hnd hmem _ (fun q hq => hq) a m hm
+  rw [lookup_eq_none_iff] at this ⊢
+  rw [enforceKVs_keys _ _ _ hr]; exact this
+
+/-- **`!override` at the top level of a document: the attribute is the document's value** (up to unicity inside it) -/
+theorem docStep_override_replaces (a : KVs) (es : List (String × YNode)) (k : String) (x : YNode) (r : KVs)
+    (ht : x.tag = .override) (hnd : (es.map Prod.fst).Nodup) (hmem : (k, x) ∈ es)
+    (h : docStep .ok (.map a) (.map .none es) = .ok (.map r)) : k ∈ keys r := by
+  obtain ⟨m, r', hm, hr, heq⟩ := docStep_root a es _ h
+  cases heq
+  have := override_replaces _ TPath.root k x ht es hnd hmem _ (fun q hq => hq) a m hm
+  rw [enforceKVs_keys _ _ _ hr, ← lookup_isSome_iff, this]; rfl
+
 /-! ## 7. Index keys -/
 
-/-- the key of a long-syntax port whose `published`, `host_ip` and `protocol` are strings and whose target is an integer
-(`port_key_spelling_independent` — the same key when `published` is written as an integer — is false, see `Neg/C04.lean`) -/
-theorem port_key_partial (kvs : KVs) (t : Int) (pub host proto : String)
-    (ht : lookup "target" kvs = some (.int t)) (hp : lookup "published" kvs = some (.str pub))
-    (hh : lookup "host_ip" kvs = some (.str host)) (hpr : lookup "protocol" kvs = some (.str proto)) :
-    index .port (.map kvs) = .ok (host ++ ":" ++ pub ++ ":" ++ toString t ++ "/" ++ proto) := by
-  simp [index, ht, hp, hh, hpr, sprintArg]
+/-- the key of a long-syntax port: `host_ip:published:target/protocol` with the defaults `0.0.0.0` and `tcp` -/
+theorem port_key (kvs : KVs) (t : Val) (ht : lookup "target" kvs = some t) :
+    index .port (.map kvs) = .ok (sprintArg 's' true ((lookup "host_ip" kvs).getD (.str "0.0.0.0")) ++ ":" ++
+      Merge.fmtV ((lookup "published" kvs).getD .null) ++ ":" ++ Merge.fmtV t ++ "/" ++
+      sprintArg 's' true ((lookup "protocol" kvs).getD (.str "tcp"))) := by
+  simp [index, ht]
+
+/-- **the port key does not depend on how `published` / `target` are spelled**: an integer and the string of its
+decimal digits give the same key (false before the round-2 repair of `portIndexer`, see `Neg/C04.lean`) -/
+theorem port_key_spelling_independent (kvs kvs' : KVs) (n t : Int)
+    (hp : lookup "published" kvs = some (.int n)) (hp' : lookup "published" kvs' = some (.str (toString n)))
+    (ht : lookup "target" kvs = some (.int t)) (ht' : lookup "target" kvs' = some (.str (toString t)))
+    (hh : lookup "host_ip" kvs = lookup "host_ip" kvs') (hpr : lookup "protocol" kvs = lookup "protocol" kvs') :
+    index .port (.map kvs) = index .port (.map kvs') := by
+  rw [port_key kvs _ ht, port_key kvs' _ ht', hp, hp', hh, hpr]
+  simp [Merge.fmtV]
+
+example : index .port (.map [("target", .int 80), ("published", .int 8080)]) = index .port (.map [("target", .str "80"), ("published", .str "8080")]) := by rfl
 
 /-- a short-syntax volume and a long-syntax volume with the same target share their key -/
 theorem volume_key_long (kvs : KVs) (t : String) (ht : lookup "target" kvs = some (.str t)) :
